@@ -371,6 +371,7 @@ impl<T: CloseValue> Drop for SlotGuard<T> {
         } else {
             unreachable!("move out of slot must only occur during drop")
         }
+        metrique_writer_core::__verif_point!("ka.sg_sent");
     }
 }
 
